@@ -54,13 +54,16 @@ func NewSyncedPool(producer kvdb.DBProducer, flushIDKey []byte) *SyncedPool {
 }
 
 func (p *SyncedPool) Initialize(dbNames []string, flushID []byte) ([]byte, error) {
+	p.Lock()
 	for _, name := range dbNames {
 		wrapper := p.getDB(name)
 		_, err := wrapper.InitUnderlyingDb()
 		if err != nil {
+			p.Unlock()
 			return flushID, err
 		}
 	}
+	p.Unlock()
 	return p.checkDBsSynced(flushID)
 }
 
